@@ -137,6 +137,7 @@ def run(ctx):
     ]
     ctx.assumptions += [
         "one grain identity on one node, no cluster (ownership: C30); non-reentrant grain (no reentrancy state: passivation is direct)",
+        "system shutdown is not part of the Coq model: it is covered by scenarios on started systems (sends at every observable shutdown phase; every activation must get its OnDeactivate before Stop returns)",
         "one model step = everything a goroutine does between two user-hook boundaries (finer interleavings of the lines in between are not explored)",
         "C31_partial guard: no direct passivationTry (deactivation only through pills handled on the turn)",
     ]
